@@ -18,7 +18,7 @@ Theorem C07_blockwise_generic : forall (b : bk) d x, wf x -> lead_pos d (ash x) 
   run_bk b d x = rows_iter d (run_bk b 0) x.
 Proof. exact run_bk_rows_iter. Qed.
 (** over an empty mapped axis the shape-only kernels succeed and keep the mapped lengths *)
-Theorem C07_kernel_empty_lead : forall a, In a [KId; KRev; KDeshape; KFix] ->
+Theorem C07_kernel_empty_lead : forall a, In a [KId; KRev; KDeshape; KFix; KFirst; KLast] ->
   forall d x i, wf x -> d <= length (ash x) -> first_zero (firstn d (ash x)) = Some i ->
   exists y, run_katom a d x = Ok y /\ firstn (S i) (ash y) = firstn (S i) (ash x).
 Proof. exact kernel_empty_lead. Qed.
@@ -36,6 +36,17 @@ Theorem C07_exec_rows_atom_eq : forall a f, proved_atom a = Some f -> atom_kerne
   forall k x, wf x -> lead_pos (S k) (ash x) ->
   exec_mfn (rowsk (S k) f) x = sem (rowsk (S k) f) x.
 Proof. exact exec_rows_atom_eq. Qed.
+(** nesting rows deeper than the rank is nesting down to the rank; the interpreter's fast path runs
+    its kernels at the nesting depth limited to the rank (commit 68a793c) *)
+Theorem C07_rows_iter_cap : forall F d x, wf x ->
+  rows_iter d F x = rows_iter (Nat.min d (length (ash x))) F x.
+Proof. exact rows_iter_cap. Qed.
+Theorem C07_sem_rows_cap : forall f k x, wf x ->
+  sem (rowsk k f) x = sem (rowsk (Nat.min k (length (ash x))) f) x.
+Proof. exact sem_rows_cap. Qed.
+Theorem C07_exec_rows_cap : forall f ks d0 k x, fast_fn f = Some (ks, d0) ->
+  exec_mfn (rowsk (S k) f) x = run_kernels ks (Nat.min (S (k + d0)) (length (ash x))) x.
+Proof. exact exec_rows_cap. Qed.
 (** rows distributes over composition when the argument has the mapped axis *)
 Theorem C07_rows_rows_compose : forall (F G : arr -> res arr) x n s ys y0,
   ash x = n :: s -> mapM F (rows x) = Ok (y0 :: ys) ->
@@ -61,18 +72,26 @@ Proof. exact inventory_pervasive_boxes. Qed.
 Theorem C07_inventory_pervasive_refuted_pre :
   exists f x, wf x /\ ash x = [2%nat] /\ exec_inventory true f x <> inventory_def (sem f) x.
 Proof. exact inventory_pervasive_refuted_pre. Qed.
-Theorem C07_below_rank_refuted :
+(** records of the defects repaired by 68a793c and 09b3e8b (models of the code before them) *)
+Theorem C07_reduce_below_rank_refuted_pre :
   exists x, wf x /\ ash x = [2%nat] /\
-    exec_mfn (rowsk 2 (FReduce PMax)) x <> sem (rowsk 2 (FReduce PMax)) x.
-Proof. exact reduce_below_rank_refuted. Qed.
-Theorem C07_compose_below_rank_refuted :
-  exists f x, wf x /\ ash x = [2%nat] /\ fast_fn f <> None /\
-    exec_mfn (rowsk 2 f) x <> sem (rowsk 2 f) x.
-Proof. exact compose_below_rank_refuted. Qed.
-Theorem C07_first_depth_empty_refuted :
-  exists x, wf x /\ exec_mfn (rowsk 1 FFirst) x = Err /\
+    k_reduce_gen true (red2 PMax) (red_ident PMax) 2 x <> sem (rowsk 2 (FReduce PMax)) x.
+Proof. exact reduce_below_rank_refuted_pre. Qed.
+Theorem C07_compose_below_rank_refuted_pre :
+  exists f ks x, wf x /\ ash x = [2%nat] /\ fast_fn f = Some (ks, 0) /\
+    run_kernels ks 2 x <> sem (rowsk 2 f) x.
+Proof. exact compose_below_rank_refuted_pre. Qed.
+Theorem C07_first_depth_empty_refuted_pre :
+  exists x, wf x /\ k_first true 1 x = Err /\
     exists y, sem (rowsk 1 FFirst) x = Ok y /\ ash y = [0%nat].
-Proof. exact first_depth_empty_refuted. Qed.
+Proof. exact first_depth_empty_refuted_pre. Qed.
+(** the former witnesses now agree *)
+Theorem C07_below_rank_witnesses_agree :
+  exec_mfn (rowsk 2 (FReduce PMax)) (Arr TChar [2%nat] [EChar 97; EChar 98]) = sem (rowsk 2 (FReduce PMax)) (Arr TChar [2%nat] [EChar 97; EChar 98]) /\
+  exec_mfn (rowsk 2 (FSeq FFix FFirst)) (Arr TNum [2%nat] [ENum 1; ENum 2]) = sem (rowsk 2 (FSeq FFix FFirst)) (Arr TNum [2%nat] [ENum 1; ENum 2]) /\
+  exec_mfn (rowsk 3 (FSeq FFix FDeshape)) (Arr TNum [1%nat] [ENum 3]) = sem (rowsk 3 (FSeq FFix FDeshape)) (Arr TNum [1%nat] [ENum 3]) /\
+  exec_mfn (rowsk 1 FFirst) (Arr TNum [0%nat; 0%nat] []) = Ok (Arr TNum [0%nat] []).
+Proof. exact below_rank_witnesses_agree. Qed.
 (** record of the defect repaired by 3374592 (model of the code before it) *)
 Theorem C07_box_depth_empty_rows_refuted_pre :
   exists x, wf x /\ first_zero (firstn 2 (ash x)) = None /\
@@ -202,9 +221,13 @@ Print Assumptions C07_reduce_minmax_shortcut_repaired.
 Print Assumptions C07_reduce_minmax_shortcut_refuted_pre.
 Print Assumptions C07_inventory_pervasive_boxes.
 Print Assumptions C07_inventory_pervasive_refuted_pre.
-Print Assumptions C07_below_rank_refuted.
-Print Assumptions C07_compose_below_rank_refuted.
-Print Assumptions C07_first_depth_empty_refuted.
+Print Assumptions C07_reduce_below_rank_refuted_pre.
+Print Assumptions C07_compose_below_rank_refuted_pre.
+Print Assumptions C07_first_depth_empty_refuted_pre.
+Print Assumptions C07_below_rank_witnesses_agree.
+Print Assumptions C07_rows_iter_cap.
+Print Assumptions C07_sem_rows_cap.
+Print Assumptions C07_exec_rows_cap.
 Print Assumptions C07_box_depth_empty_rows_refuted_pre.
 Print Assumptions C07_fork_spec.
 Print Assumptions C07_bracket_spec.
